@@ -507,4 +507,30 @@ Proof.
     + rewrite nthZ_updZ_same by lia. exact tk_fb_ok.
     + rewrite nthZ_updZ_other by lia. now apply IFB0.
 Qed.
+
+(* everything later developments need to know about taking a panel, with all hypotheses explicit *)
+Lemma take_facts :
+  same_static a s' /\ j < d <= sn a /\
+  (forall p, st s' p = if tcond a j && (p =? d) then c_CANPIPE else if p =? j then c_BUSY else st a p) /\
+  fb s' = updZ (fb a) d b /\
+  b = climb (fuel_of a) (set_pstate a (tpst a j)) (nthZ (fb a) j) /\
+  (d < sn a -> lead a d = true /\ regular a d /\ st a d = c_UNREADY) /\
+  ((forall c, kid a j c = true -> st a c <= c_BUSY) /\
+   (forall c1 c2, kid a j c1 = true -> kid a j c2 = true -> st a c1 <> c_DONE -> st a c2 <> c_DONE -> c1 = c2)) /\
+  (uk a j = 0 -> forall c, kid a j c = true -> st a c = c_DONE) /\
+  (tcond a j = true -> d < sn a /\ forall c, kid a d c = true -> c <> j -> st a c = c_DONE) /\
+  Inv (mkG s' th').
+Proof.
+  split; [exact tk_static|]. split; [exact tk_d|]. split; [exact tk_st|].
+  split; [destruct (take_proj a j) as (_ & _ & _ & _ & _ & _ & _ & _ & P & _); exact P|].
+  split; [exact (take_b a j)|]. split; [exact tk_d_unready|]. split; [exact tk_J_j|].
+  split.
+  { intros H0 c K. use_invx HX. pose proof (proj1 (kid_iff _ _ _) K) as [Lc _]. apply tk_reported_done; auto.
+    rewrite (IUKIDS j (or_introl Lj)) in H0. unfold ukspec in H0.
+    pose proof (countb_zero _ _ H0 c) as Z0. pose proof (lead_range _ _ Lc) as [Rc _].
+    specialize (Z0 (proj2 (in_cols _ _) Rc)). cbn in Z0. rewrite K in Z0. exact Z0. }
+  split.
+  { intros E. split; [|exact (tk_J_d E)]. unfold tcond in E. apply andb_true_iff in E. destruct E as [E _]. now apply Z.ltb_lt in E. }
+  exact (proj1 inv_take).
+Qed.
 End TAKE.
